@@ -72,11 +72,12 @@ func verifAssert(c bool, msg string) {
 		panic(verifStop{"assert"})
 	}
 }
-func verifFail(msg string)       { verifAssert(false, msg) }
-func verifReach(label string)    {}
-func verifSymbolic() bool        { return false }
+func verifFail(msg string)          { verifAssert(false, msg) }
+func verifReach(label string)       {}
+func verifSymbolic() bool           { return false }
 func verifConcrete(s string) string { return s }
-func verifMapOrder(on bool)      {}
+func verifMapOrder(on bool)         {}
+
 // verifKnown reports whether the finding with this key is listed as known in
 // /verif/known_findings.jsonl (the main check then excludes exactly its region).
 func verifKnown(key string) bool {
